@@ -618,6 +618,43 @@ static void reduce_case(vf_rng *r)
             snprintf(d, sizeof(d), "n=%zu strides %zu/%zu %s", n, c, c2, integer ? "integers" : "reals");
             free(hp); free(hc);
         }
+        /* increment 0: one operand is a single scalar used for every term (the BLAS idiom for a weighted sum). Still the defining formula: ordinary
+           data within the usual bound, and data near the largest finite value with a scalar well below 1, where every term, every partial sum of
+           terms in any order and the result are finite although the plain sum of the other operand is not (seeded change C11-M: the scalar is
+           hoisted out, `sum_(X) * *Y`, and the result is inf) */
+        if (n)
+        {
+            a_real const w = integer ? (a_real)vf_range(r, -1000, 1000) : (a_real)(vf_sign(r) * logu(r, -6, 6));
+            q_t d0 = 0, ad0 = 0;
+            for (size_t j = 0; j < n; ++j) { d0 += (q_t)pc[j] * w; ad0 += fabsq((q_t)pc[j] * w); }
+            snprintf(d, sizeof(d), "n=%zu strides %zu/0, scalar %.17g, %s", n, c, (double)w, integer ? "integers" : "reals");
+            RED("dot_-stride-0", a_real_dot_(n, p, c, &w, 0), d0, ad0);
+            snprintf(d, sizeof(d), "n=%zu strides 0/%zu, scalar %.17g, %s", n, c, (double)w, integer ? "integers" : "reals");
+            RED("dot_-stride-0", a_real_dot_(n, &w, 0, p, c), d0, ad0);
+            if (n <= 8 && !integer)
+            {
+                a_real *hp = (a_real *)malloc(n * c * sizeof(a_real));
+                a_real const sc = (a_real)(vf_sign(r) * 0.125 * vf_uniform(r, 0.5, 1.0));
+                int const was = integer;
+                d0 = ad0 = 0;
+                for (size_t j = 0; j < n * c; ++j) { hp[j] = 0; }
+                for (size_t j = 0; j < n; ++j)
+                {
+                    a_real v = (a_real)((double)A_REAL_MAX * vf_uniform(r, 0.25, 0.9) * vf_sign(r));
+                    hp[j * c] = v;
+                    d0 += (q_t)v * sc;
+                    ad0 += fabsq((q_t)v * sc);
+                }
+                snprintf(d, sizeof(d), "n=%zu stride %zu, elements in +-[MAX/4, 0.9 MAX], times one scalar %.17g (increment 0)", n, c, (double)sc);
+                vf_log("weighted sum of huge elements %s", d);
+                RED("dot_-stride-0", a_real_dot_(n, hp, c, &sc, 0), d0, ad0);
+                RED("dot_-stride-0", a_real_dot_(n, &sc, 0, hp, c), d0, ad0);
+                VF_COUNT("weighted-sum-of-elements-near-the-largest-finite-value");
+                (void)was;
+                free(hp);
+            }
+            snprintf(d, sizeof(d), "n=%zu strides %zu/%zu %s", n, c, c2, integer ? "integers" : "reals");
+        }
         /* the same array handed in twice (with equal and with different strides): still the defining formula */
         {
             size_t cm = c > c2 ? c : c2;
